@@ -48,7 +48,24 @@ def comp_name(comp):
         n = comp.get(a, 0)
         if n:
             out += a + (str(n) if n > 1 else '')
-    return out
+    q = comp.get('E', 0)                       # Chemkin electron element: cation E<0 -> ...P, anion -> ...M
+    if q and not out:
+        return 'E' * q if q > 0 else 'Q' * (-q)
+    return out + ('M' * q if q > 0 else 'P' * (-q))
+
+
+def is_charged(comp):
+    return bool(comp.get('E', 0))
+
+
+def sane(comp):
+    """a molecule (>= 1 atom, all atom counts positive) with charge -1..+1, or the electron itself"""
+    atoms = [n for a, n in comp.items() if a != 'E']
+    if any(n < 0 for n in atoms):
+        return False
+    if not atoms:
+        return comp.get('E', 0) == 1
+    return abs(comp.get('E', 0)) <= 1
 
 
 def comp_key(comp):
@@ -173,7 +190,8 @@ class _Builder:
         out = []
         for i, A in enumerate(comps):
             for B in comps[i:]:
-                if comp_key(comp_add(A, B)) in keys:
+                AB = comp_add(A, B)
+                if AB and comp_key(AB) in keys:
                     out.append((A, B))
         return out
 
@@ -240,7 +258,20 @@ class _Builder:
 
     def r_gas(self, want_ts):
         rng = self.rng
-        mode = rng.choice(['split', 'split', 'assoc', 'multi'])
+        mode = rng.choice(['split', 'split', 'assoc', 'multi', 'ion'])
+        if mode == 'ion':
+            # X = XP + E (ionisation) | X + E = XM (attachment), either direction: signed element counts
+            neutral = [dict(k) for k in self.gas if not is_charged(dict(k))]
+            X = rng.choice(neutral) if neutral and rng.random() < 0.7 else self.rand_comp(1, 4)
+            sign = rng.choice([-1, -1, 1])
+            ion = comp_add(X, {'E': 1}, sign)
+            x, i, e = self.gas_sp(X), self.gas_sp(ion), self.gas_sp({'E': 1})
+            if None in (x, i, e):
+                return False
+            lhs, rhs = ([[x, 1]], [[i, 1], [e, 1]]) if sign < 0 else ([[x, 1], [e, 1]], [[i, 1]])
+            if rng.random() < 0.4:
+                lhs, rhs = rhs, lhs
+            return self.add_reaction('gas', lhs, rhs, None, want_ts)
         if mode == 'multi':
             A = self.rand_comp(1, 3)
             n = rng.choice([2, 3])
@@ -252,14 +283,15 @@ class _Builder:
             if rng.random() < 0.5:
                 lhs, rhs = rhs, lhs
             return self.add_reaction('gas', lhs, rhs, None, want_ts)
-        pool = [dict(k) for k in self.gas if sum(n for _, n in k) >= 2]
+        pool = [dict(k) for k in self.gas if not is_charged(dict(k)) and sum(n for _, n in k) >= 2]
         small = [dict(k) for k in self.gas]
+        neutral = [c for c in small if not is_charged(c)]
         closed = self._triples(small) if (rng.random() < 0.4 or not self.room(2)) else []
         if closed:
-            A, B = rng.choice(closed)                         # A + B = AB among existing molecules
+            A, B = rng.choice(closed)                         # A + B = AB among existing molecules (ions too)
             AB = comp_add(A, B)
-        elif len(small) >= 2 and rng.random() < 0.4:
-            A, B = rng.choice(small), rng.choice(small)       # recombine two existing molecules
+        elif len(neutral) >= 2 and rng.random() < 0.4:
+            A, B = rng.choice(neutral), rng.choice(neutral)   # recombine two existing molecules
             AB = comp_add(A, B)
         else:
             AB = rng.choice(pool) if pool and rng.random() < 0.6 else self.rand_comp(2, 7)
@@ -273,7 +305,7 @@ class _Builder:
         return self.add_reaction('gas', lhs, rhs, None, want_ts)
 
     def _some_comp(self, prefer_gas=0.6, lo=1, hi=5):
-        pool = [dict(k) for k in self.gas]
+        pool = [dict(k) for k in self.gas if any(a != 'E' for a, _ in k)]       # ions yes, the electron no
         if pool and self.rng.random() < prefer_gas:
             return self.rng.choice(pool)
         return self.rand_comp(lo, hi)
@@ -316,15 +348,17 @@ class _Builder:
         if v is None:
             return False
         b = self.sites[k]['bulk_specie']
-        pool = [dict(key) for (key, kk) in self.ads if kk == k and sum(n for _, n in key) >= 2]
+        pool = [dict(key) for (key, kk) in self.ads if kk == k and not is_charged(dict(key))
+                and sum(n for _, n in key) >= 2]
         small = [dict(key) for (key, kk) in self.ads if kk == k]
+        neutral = [c for c in small if not is_charged(c)]
         r = rng.random()
         closed = self._triples(small) if (r < 0.3 or not self.room(2)) else []
         if closed:
             A, B = rng.choice(closed)                         # A + B = AB among existing adsorbates
             AB = comp_add(A, B)
-        elif len(small) >= 2 and r < 0.45:
-            A, B = rng.choice(small), rng.choice(small)       # recombine two existing adsorbates
+        elif len(neutral) >= 2 and r < 0.45:
+            A, B = rng.choice(neutral), rng.choice(neutral)   # recombine two existing adsorbates
             AB = comp_add(A, B)
         elif r < 0.6:
             A = self.rand_comp(1, 2)
@@ -347,6 +381,34 @@ class _Builder:
         if rng.random() < 0.5:
             lhs, rhs = rhs, lhs
         return self.add_reaction('surf', lhs, rhs, k, want_ts)
+
+    def r_er(self, want_ts):
+        """Eley-Rideal: A(gas) + B(S) + m M(S) = AB(S) + m M(B)  (m<0: vacant/bulk swap sides), or the
+        reverse with the gas species as product; never an adsorption (sticking) step"""
+        rng = self.rng
+        k = rng.randrange(len(self.sites))
+        v = self.vacant(k)
+        if v is None:
+            return False
+        b = self.sites[k]['bulk_specie']
+        A = self._some_comp(lo=1, hi=3)
+        on_site = [dict(key) for (key, kk) in self.ads if kk == k]
+        B = rng.choice(on_site) if on_site and rng.random() < 0.7 else self.rand_comp(1, 3)
+        AB = comp_add(A, B)
+        if not sane(AB):
+            return False
+        g, sB, sAB = self.gas_sp(A), self.ads_sp(B, k), self.ads_sp(AB, k)
+        if None in (g, sB, sAB):
+            return False
+        m = self.species[sAB]['n_sites'] - self.species[sB]['n_sites']
+        lhs, rhs = [[g, 1], [sB, 1]], [[sAB, 1]]
+        if m > 0:
+            lhs.append([v, m]); rhs.append([b, m])
+        elif m < 0:
+            lhs.append([b, -m]); rhs.append([v, -m])
+        if rng.random() < 0.35:
+            lhs, rhs = rhs, lhs
+        return self.add_reaction('er', lhs, rhs, k, want_ts)
 
     def r_diff(self, want_ts):
         rng = self.rng
@@ -371,7 +433,8 @@ class _Builder:
 PROFILES = ['mixed', 'mixed', 'mixed', 'surface', 'gas', 'tiny']
 
 
-def gen_mechanism(rng, profile=None, ts_mode=None, n_sites=None, n_rxn=None, max_species=None):
+def gen_mechanism(rng, profile=None, ts_mode=None, n_sites=None, n_rxn=None, max_species=None,
+                  carry='random', zero_fill='random', species_order=None):
     """Returns {'sites', 'species', 'reactions', 'profile', 'ts_mode'}."""
     profile = profile or rng.choice(PROFILES)
     ts_mode = ts_mode or rng.choice(['mixed', 'mixed', 'all', 'none'])
@@ -380,10 +443,11 @@ def gen_mechanism(rng, profile=None, ts_mode=None, n_sites=None, n_rxn=None, max
         n_rxn = rng.randint(1, 3) if profile == 'tiny' else rng.choice([rng.randint(2, 12), rng.randint(8, 40)])
     max_species = max_species or (rng.randint(4, 8) if profile == 'tiny' else rng.choice([rng.randint(8, 30), 30]))
     b = _Builder(rng, n_sites, max_species)
-    weights = {'mixed': {'gas': 3, 'ads': 3, 'ads_plain': 1, 'ads_diss': 1, 'des': 1, 'surf': 5, 'diff': 2},
-               'surface': {'gas': 0, 'ads': 3, 'ads_plain': 1, 'ads_diss': 1, 'des': 1, 'surf': 6, 'diff': 2},
-               'gas': {'gas': 1, 'ads': 0, 'ads_plain': 0, 'ads_diss': 0, 'des': 0, 'surf': 0, 'diff': 0},
-               'tiny': {'gas': 2, 'ads': 2, 'ads_plain': 1, 'ads_diss': 1, 'des': 1, 'surf': 2, 'diff': 1}}[profile]
+    weights = {'mixed': {'gas': 3, 'ads': 3, 'ads_plain': 1, 'ads_diss': 1, 'des': 1, 'surf': 5, 'diff': 2, 'er': 2},
+               'surface': {'gas': 0, 'ads': 3, 'ads_plain': 1, 'ads_diss': 1, 'des': 1, 'surf': 6, 'diff': 2, 'er': 2},
+               'gas': {'gas': 1, 'ads': 0, 'ads_plain': 0, 'ads_diss': 0, 'des': 0, 'surf': 0, 'diff': 0, 'er': 0},
+               'tiny': {'gas': 2, 'ads': 2, 'ads_plain': 1, 'ads_diss': 1, 'des': 1, 'surf': 2, 'diff': 1,
+                        'er': 1}}[profile]
     kinds = list(weights)
     tries = 0
     while len(b.reactions) < n_rxn and tries < 40 * n_rxn + 50:
@@ -396,6 +460,8 @@ def gen_mechanism(rng, profile=None, ts_mode=None, n_sites=None, n_rxn=None, max
             b.r_ads(want_ts, kind)
         elif kind == 'surf':
             b.r_surf(want_ts)
+        elif kind == 'er':
+            b.r_er(want_ts)
         else:
             b.r_diff(want_ts)
     while not b.reactions:                      # species budget too tight for the first draws
@@ -408,8 +474,36 @@ def gen_mechanism(rng, profile=None, ts_mode=None, n_sites=None, n_rxn=None, max
             b._add(el.upper(), 'G', {el: 1}, 'inert')
     if b.n_real() < 2:
         b.gas_sp(b.rand_comp(1, 3))
-    return {'sites': b.sites, 'species': list(b.species.values()), 'reactions': b.reactions,
-            'profile': profile, 'ts_mode': ts_mode}
+    species = list(b.species.values())
+    # (i) species records made from one table: gas species carry a catalyst site (and n_sites) as well
+    draw = rng.choice([None, None, 'table', 'some'])
+    carry = draw if carry == 'random' else carry
+    k0 = rng.randrange(len(b.sites))
+    for sp in species:
+        if sp['role'] in ('gas', 'inert') and carry and (carry == 'table' or rng.random() < 0.5):
+            sp['carry_site'] = k0 if (carry == 'table' or rng.random() < 0.7) else rng.randrange(len(b.sites))
+            sp['carry_n_sites'] = rng.choice([None, 1, 1, 2])
+    # (ii) zero-filled element columns (spreadsheet style), optionally an element that is zero everywhere
+    draw = rng.choice([None, None, 'all', 'some'])
+    fill = draw if zero_fill == 'random' else zero_fill
+    if fill:
+        universe = sorted({e for sp in species for e in sp['elements']})
+        if rng.random() < 0.4:
+            universe.append(rng.choice(['S', 'Cl']))             # nobody contains it
+        for sp in species:
+            if fill == 'all' or rng.random() < 0.4:
+                for e in universe:
+                    if fill == 'all' or rng.random() < 0.5:
+                        sp['elements'].setdefault(e, 0)
+    # (iii) order of the species records
+    draw = rng.choice(['creation', 'shuffled', 'reversed'])
+    order = species_order or draw
+    if order == 'shuffled':
+        rng.shuffle(species)
+    elif order == 'reversed':
+        species.reverse()
+    return {'sites': b.sites, 'species': species, 'reactions': b.reactions,
+            'profile': profile, 'ts_mode': ts_mode, 'carry': carry, 'zero_fill': fill, 'species_order': order}
 
 
 def gen_conditions(rng, mech, n_runs=None):
@@ -515,7 +609,7 @@ def apply_history_to_objects(mech, objs, ops):
         if op['op'] in ('site_density', 'density'):
             setattr(objs['sites'][op['site']], op['op'], op['value'])
             for s in mech['species']:
-                if s.get('site') == op['site']:
+                if s.get('site') == op['site'] or s.get('carry_site') == op['site']:
                     setattr(objs['species'][s['name']].cat_site, op['op'], op['value'])
         elif op['op'] == 'sticking':
             objs['reactions'][op['rx']].sticking_coeff = op['value']
@@ -555,6 +649,11 @@ def build_mechanism(mech, site_objs='shared', reactions_arg='list'):
             extra['cat_site'] = shared[sp['site']] if site_objs == 'shared' else mk_site(mech['sites'][sp['site']])
             if sp.get('n_sites') is not None:
                 extra['n_sites'] = sp['n_sites']
+        elif sp.get('carry_site') is not None:          # a gas species whose record names the mechanism's site
+            k = sp['carry_site']
+            extra['cat_site'] = shared[k] if site_objs == 'shared' else mk_site(mech['sites'][k])
+            if sp.get('carry_n_sites') is not None:
+                extra['n_sites'] = sp['carry_n_sites']
         core = {k: sp[k] for k in ('type', 'name', 'T_low', 'T_mid', 'T_high', 'a_low', 'a_high', 'phase',
                                    'elements')}
         species[sp['name']] = SG.build(core, **extra)
